@@ -182,3 +182,67 @@ def ev(e: N, env: Env) -> Any:
 
 def truth(e: N, env: Env) -> Optional[bool]:
     return _truth(ev(e, env))
+
+
+# --------------------------------------------------------------------------------------
+# may-analysis: which truth values can a guard take when only some atoms are known
+# --------------------------------------------------------------------------------------
+UNKNOWN = object()
+
+
+def may(e: N, known: Callable[[N], Any]) -> set:
+    """Possible truth values {True, False} of a guard; `known(node)` returns a value or UNKNOWN for
+    column/variable/param nodes.  NULL guards count as False (MySQL IF/WHERE semantics)."""
+    k = e.kind
+    if k == 'un' and e.op == 'NOT':
+        inner = may3(e.arg, known)
+        out = set()
+        for v in inner:
+            out.add(False if v is None else (not v))
+        return {bool(x) for x in out}
+    vals = may3(e, known)
+    return {bool(v) if v is not None else False for v in vals}
+
+
+def may3(e: N, known: Callable[[N], Any]) -> set:
+    """Possible three-valued results {True, False, None}."""
+    k = e.kind
+    if k == 'bin' and e.op in ('AND', 'OR'):
+        a = may3(e.left, known)
+        b = may3(e.right, known)
+        out = set()
+        for x in a:
+            for y in b:
+                if e.op == 'AND':
+                    if x is False or y is False:
+                        out.add(False)
+                    elif x is None or y is None:
+                        out.add(None)
+                    else:
+                        out.add(True)
+                else:
+                    if x is True or y is True:
+                        out.add(True)
+                    elif x is None or y is None:
+                        out.add(None)
+                    else:
+                        out.add(False)
+        return out
+    if k == 'un' and e.op == 'NOT':
+        return {None if v is None else (not v) for v in may3(e.arg, known)}
+    # leaf predicate: decidable iff every atom in it is known
+    atoms = [n for n in e.walk() if n.kind in ('col', 'uvar', 'param', 'hole')]
+    subq = any(n.kind in ('subq', 'exists', 'select') for n in e.walk())
+    if subq:
+        return {True, False, None}
+    vals = {}
+    for a in atoms:
+        v = known(a)
+        if v is UNKNOWN:
+            return {True, False, None}
+        vals[id(a)] = v
+    try:
+        r = ev(e, lambda n: vals[id(n)])
+    except Unbound:
+        return {True, False, None}
+    return {_truth(r)}
